@@ -316,7 +316,7 @@ def check_spellings(case, R):
         ws.remove(base)
 
 
-DIRSET_DIRS = ["a/ra", "a/rb", "a/ra/sub", "b/ra", "b/RA", "b/rb/deep/rc", "a/rb/x"]
+DIRSET_DIRS = ["a/ra", "a/rb", "a/ra/sub", "b/ra", "b/RA", "b/rb/deep/rc", "a/rb/x", "a/ra/sub/deep", "a/rb/x/y/z", "b/rb"]  # nesting distances 1, 2, 3
 
 
 def check_dirsets(case, R):
@@ -325,8 +325,8 @@ def check_dirsets(case, R):
         for d in DIRSET_DIRS:
             (base / d).mkdir(parents=True, exist_ok=True)
             name = d.split("/")[-1]
-        ws.write_tree(base, {"a/ra/A.1.0.dsdl": "@sealed\n", "a/rb/B.1.0.dsdl": "@sealed\n", "b/ra/C.1.0.dsdl": "@sealed\n", "b/RA/D.1.0.dsdl": "@sealed\n", "b/rb/deep/rc/E.1.0.dsdl": "@sealed\n", "a/ra/sub/F.1.0.dsdl": "@sealed\n", "a/rb/x/G.1.0.dsdl": "@sealed\n"})
-        for root in DIRSET_DIRS[:4]:
+        ws.write_tree(base, {"a/ra/A.1.0.dsdl": "@sealed\n", "a/rb/B.1.0.dsdl": "@sealed\n", "b/ra/C.1.0.dsdl": "@sealed\n", "b/RA/D.1.0.dsdl": "@sealed\n", "b/rb/deep/rc/E.1.0.dsdl": "@sealed\n", "a/ra/sub/F.1.0.dsdl": "@sealed\n", "a/rb/x/G.1.0.dsdl": "@sealed\n", "a/ra/sub/deep/H.1.0.dsdl": "@sealed\n", "a/rb/x/y/z/I.1.0.dsdl": "@sealed\n", "b/rb/J.1.0.dsdl": "@sealed\n"})
+        for root in DIRSET_DIRS[:4] + DIRSET_DIRS[7:9]:
             others = [d for d in DIRSET_DIRS if d != root]
             for k in (0, 1, 2):
                 for lk in itertools.combinations(others, k):
